@@ -517,7 +517,7 @@ def _selfcheck_kn():
 
 _selfcheck_kn()
 
-KN_WRAPS = ['plain', 'plain', 'scaled', 'square', 'log', 'inner', 'sum2', 'product', 'array']
+KN_WRAPS = ['plain', 'plain', 'scaled', 'square', 'log', 'inner', 'sum2', 'product', 'array', 'array_used', 'array_used']
 
 
 def make_order(n, form):
@@ -554,7 +554,7 @@ def kn_case(draw, tier):
         y = draw(st.one_of(gen.fl(0.2, 3.0), gen.fl(-3.0, -0.2)))
         spec['y'] = y
         obs.append(draw(obs_near(y, 1.0, nmax, pool)))
-    if wrap == 'array':
+    if wrap in ('array', 'array_used'):
         x2 = draw(logu(0.05, 20.0))
         spec['x2'] = x2
         obs.append(draw(obs_near(x2, x2, nmax, pool)))
@@ -571,7 +571,7 @@ def kn_oracle(spec):
     wrap = spec['wrap']
     obs, refs = build_inputs(spec['obs'])
     vals = [r.value for r in refs]
-    if vals[0] <= 0 or (wrap == 'array' and vals[1] <= 0):
+    if vals[0] <= 0 or (wrap in ('array', 'array_used') and vals[1] <= 0):
         raise Skip('argument left the domain')
     hs = [1e-5 * abs(v) for v in vals]
     what = 'kn(%r, x) [%s] at x=%r' % (nn, wrap, vals[0])
@@ -583,6 +583,32 @@ def kn_oracle(spec):
             g = [0.0, 0.0]
             g[k] = dK(n, vals[k])
             judge('%s component %d' % (what, k), res[k], lambda v, k=k: K(n, v[k]), g, [abs(x) for x in g], refs, hs)
+    elif wrap == 'array_used':
+        # K_n of an array argument used further inside the same function (the derivative must not disturb the forward value)
+        how = ['x*K', 'log', 'square'][abs(n) % 3]
+        fa = {'x*K': lambda x: x * kn(nn, x), 'log': lambda x: anp.log(kn(nn, x)), 'square': lambda x: kn(nn, x) ** 2}[how]
+        res = pe.derived_observable(lambda x, **kw: fa(x), obs)
+        require(isinstance(res, np.ndarray) and res.shape == (2,), what + ': vectorised call did not return two results',
+                getattr(res, 'shape', None))
+        for k in range(2):
+            Kk, dKk = K(n, vals[k]), dK(n, vals[k])
+            g = [0.0, 0.0]
+            if how == 'x*K':
+                g[k] = Kk + vals[k] * dKk
+                fk = lambda v, k=k: v[k] * K(n, v[k])  # noqa: E731
+                sc = [0.0, 0.0]
+                sc[k] = abs(Kk) + abs(vals[k] * dKk)
+            elif how == 'log':
+                if not Kk > 0:
+                    raise Skip('non-positive K_n')
+                g[k] = dKk / Kk
+                fk = lambda v, k=k: math.log(K(n, v[k])) if K(n, v[k]) > 0 else float('nan')  # noqa: E731
+                sc = [abs(x) for x in g]
+            else:
+                g[k] = 2 * Kk * dKk
+                fk = lambda v, k=k: K(n, v[k]) ** 2  # noqa: E731
+                sc = [abs(x) for x in g]
+            judge('%s (%s) component %d' % (what, how, k), res[k], fk, g, sc, refs, hs)
     else:
         if wrap == 'plain':
             res = pe.derived_observable(lambda x, **kw: kn(nn, x[0]), obs)
